@@ -392,5 +392,18 @@ def check(ck):
     ck.require(len(rets) == 1, "C10.7", "%s: one idle retirement" % q.fn(frun), "single guarded return", "found %d idle-retirement returns" % len(rets), q.loc(frun, frun.node))
     for rn in rets:
         gs = [norm_cmp(g.nodes[i].test, g.nodes[i].polarity) for i in d[rn.id] if g.nodes[i].kind == "branch"]
+        idle_ok = False
+        for i in d[rn.id]:
+            b = g.nodes[i]
+            nc = norm_cmp(b.test, b.polarity) if b.kind == "branch" else None
+            if nc and nc[1] == "<" and nc[0] == "self._queue.qsize()" and isinstance(b.test, ast.Compare):
+                other = b.test.comparators[0] if dump(b.test.left) == "self._queue.qsize()" else b.test.left
+                to = prov.origin(g, b, other)
+                if to == ("binop", "Sub", ("attr", ("param", "self"), "__nb_threads"), ("attr", ("param", "self"), "__nb_active_threads")):
+                    idle_ok = True
+        ck.require(idle_ok, "C10.7", "%s: retirement only when idle workers outnumber the waiting tasks" % q.fn(frun),
+                   "qsize() < nb_threads - nb_active_threads (strict)",
+                   "an idle worker may retire although the other idle workers do not outnumber the queued tasks (guards %s): with idle == queued > 0 "
+                   "a waiting task is left without a worker" % [x for x in gs if x], q.loc(frun, rn))
         ck.require(("self._min_threads", "<", "self.__nb_threads") in gs, "C10.7", "%s: retirement guarded by `threads > min`" % q.fn(frun),
                    "nb_threads > min_threads", "an idle worker can retire although no more than min_threads workers exist (guards %s)" % [x for x in gs if x], q.loc(frun, rn))
